@@ -164,7 +164,7 @@ def _adapter_on_known(ck, argv):
         return x
     if n in ("map", "and_then") and var in ("Err", "None"):
         return x
-    if n in ("unwrap_or", "unwrap_or_else", "unwrap_or_default") and var in ("Some", "Ok") and pay is not None:
+    if n in ("unwrap_or", "unwrap_or_else", "unwrap_or_default", "unwrap", "expect", "unwrap_unchecked") and var in ("Some", "Ok") and pay is not None:
         return pay
     if n == "unwrap_or" and var == "None" and len(argv) > 1:
         return argv[1]
@@ -752,6 +752,8 @@ class Explorer:
                     val = acc       # a workspace function that only projects / rewraps its argument (`fn into_inner(self) -> u64 { self.0 }`)
                 elif flow.lossless_cast(t) and len(argv) == 1:
                     val = ("cast", argv[0], flow.lossless_cast(t))       # u64::from(x) is `x as u64`
+                elif flow.infallible_try_from(t) and len(argv) == 1:
+                    val = ("agg", "core::result::Result", "Ok", (("cast", argv[0], flow.infallible_try_from(t)),))     # u64::try_from(usize)
                 elif ck.endswith(FROM_RESIDUAL) and argv and argv[0][0] == "residual":
                     val = ("errconv", argv[0][1])
                 else:
